@@ -106,10 +106,10 @@ theorem ffwdLoop_succ (o : Nat) (fuel : Nat) (b : Buf) :
   rw [ffwdLoop]
 
 theorem ffwdLoop_spec (o : Nat) (fuel : Nat) : ∀ (b : Buf), WF b → b.rest.length + 1 ≤ fuel →
-    b.base + b.pos ≤ o → o < b.src.length →
+    b.base + b.pos ≤ o → o ≤ b.src.length →
     (ffwdLoop o fuel b).1 = .ok ∧ WF (ffwdLoop o fuel b).2 ∧ Keep b (ffwdLoop o fuel b).2 ∧
     (ffwdLoop o fuel b).2.base + (ffwdLoop o fuel b).2.pos ≤ o ∧
-    o < (ffwdLoop o fuel b).2.base + (ffwdLoop o fuel b).2.n := by
+    o ≤ (ffwdLoop o fuel b).2.base + (ffwdLoop o fuel b).2.n := by
   induction fuel with
   | zero => intro b _ hf; omega
   | succ fuel ih =>
@@ -128,32 +128,36 @@ theorem ffwdLoop_spec (o : Nat) (fuel : Nat) : ∀ (b : Buf), WF b → b.rest.le
       simp only [] at hr hk hlt ⊢
       have hoff2 : b2.base + b2.pos = b.base + b.n := hr.frame.off
       have hsrc2 : b2.src = b.src := hr.frame.src
-      -- end of file cannot happen: `o` is a byte of the input
-      have hne : st ≠ .eof := by
-        intro he
-        obtain ⟨e1, e2⟩ := hr.eof_imp he
-        have := exhausted_le hr.wf e2
-        rw [hsrc2] at this
-        omega
-      have hok : st = .ok := by rcases hr.status with h1 | h1; exact h1; exact absurd h1 hne
-      subst hok
-      have c1 : ¬ (St.ok = St.eof ∧ o = b2.base + b2.n) := by intro hh; cases hh.1
-      have c2 : ¬ (St.ok = St.eof) := by intro hh; cases hh
-      have c3 : ¬ (St.ok ≠ St.ok) := by intro hh; exact hh rfl
-      rw [if_neg c1, if_neg c2, if_neg c3]
-      have hlt2 := hlt rfl
-      have hav1 : ({ b with pos := b.n } : Buf).n - ({ b with pos := b.n } : Buf).pos = 0 := by show b.n - b.n = 0; omega
-      have hprog := hr.prog (by rw [hav1]; omega)
-      have hrest1 : ({ b with pos := b.n } : Buf).rest = b.rest := rfl
-      rw [hrest1] at hprog
-      obtain ⟨i1, i2, i3, i4, i5⟩ := ih b2 hr.wf (by omega) (by omega) (by rw [hsrc2]; exact hhi)
-      exact ⟨i1, i2, ((setpos_keep b b.n).trans hk).trans i3, i4, i5⟩
+      have hkeep : Keep b b2 := (setpos_keep b b.n).trans hk
+      rcases hr.status with hok | heof
+      · subst hok
+        have c1 : ¬ (St.ok = St.eof ∧ o = b2.base + b2.n) := by intro hh; cases hh.1
+        have c2 : ¬ (St.ok = St.eof) := by intro hh; cases hh
+        have c3 : ¬ (St.ok ≠ St.ok) := by intro hh; exact hh rfl
+        rw [if_neg c1, if_neg c2, if_neg c3]
+        have hlt2 := hlt rfl
+        have hav1 : ({ b with pos := b.n } : Buf).n - ({ b with pos := b.n } : Buf).pos = 0 := by show b.n - b.n = 0; omega
+        have hprog := hr.prog (by rw [hav1]; omega)
+        have hrest1 : ({ b with pos := b.n } : Buf).rest = b.rest := rfl
+        rw [hrest1] at hprog
+        obtain ⟨i1, i2, i3, i4, i5⟩ := ih b2 hr.wf (by omega) (by omega) (by rw [hsrc2]; exact hhi)
+        exact ⟨i1, i2, hkeep.trans i3, i4, i5⟩
+      · subst heof
+        -- end of the stream: then `o` is exactly the end of the input
+        obtain ⟨e1, e2⟩ := hr.eof_imp rfl
+        have hex := exhausted_le hr.wf e2
+        rw [hsrc2] at hex
+        have heq : o = b2.base + b2.n := by omega
+        rw [if_pos ⟨rfl, heq⟩]
+        exact ⟨rfl, hr.wf, hkeep, by show b2.base + b2.pos ≤ o; omega, by show o ≤ b2.base + b2.n; omega⟩
     · rw [if_neg hout]
-      exact ⟨rfl, h, Keep.refl b, hlo, by show o < b.base + b.n; omega⟩
+      exact ⟨rfl, h, Keep.refl b, hlo, by show o ≤ b.base + b.n; omega⟩
 
 theorem sim_setOffset (P : Nat) (o : Nat) : SimStep P (.setOffset o) := by
   intro a s r hv
-  obtain ⟨hvlt, hvalt⟩ : o < a.src.length ∧ (a.cur ≤ o ∨ ∃ A, a.anchor = some A ∧ A ≤ o) := hv
+  obtain ⟨hvend, hvalt⟩ : (o < a.src.length ∨ (o = a.src.length ∧ a.anchor ≠ none)) ∧
+      (a.cur ≤ o ∨ ∃ A, a.anchor = some A ∧ A ≤ o) := hv
+  have hvle : o ≤ a.src.length := by rcases hvend with h | h <;> omega
   have hp := r.wf.hpos
   have hA : ∀ A, a.anchor = some A → A ≤ o := by
     intro A hA
@@ -174,7 +178,7 @@ theorem sim_setOffset (P : Nat) (o : Nat) : SimStep P (.setOffset o) := by
       rw [if_neg (by intro hh; cases hh), ho, hb, hc]
     · exact r.of_keepA' (s' := (s.step (.setOffset o)).2) (a' := { a with cur := o, lastp := none })
         (by rw [hb]; exact w) (by rw [hb]; exact pg) (by rw [hb]; exact k.toKeepA) (by rw [hb]; exact r.aok.keep k)
-        rfl rfl rfl (by rw [hb]; exact hc) hA (Nat.le_of_lt hvlt)
+        rfl rfl rfl (by rw [hb]; exact hc) hA hvle
         (by rw [step_lastp]; show (setOffset s.b o).1.p = none; exact setOffset_p _ _) rfl
   by_cases hm : memMode s.b.mode
   · -- whole input in memory
@@ -231,6 +235,12 @@ theorem sim_setOffset (P : Nat) (o : Nat) : SimStep P (.setOffset o) := by
         have hk := refill_keep b1 0 w1
         have hrest1 : b1.rest = s.b.src.drop o := by rw [← hb1]
         have hn1 : b1.n - b1.pos = 0 := by rw [← hb1]; rfl
+        -- without an anchor only byte positions are in the contract
+        have hvlt : o < a.src.length := by
+          rcases hvend with h | ⟨_, h⟩
+          · exact h
+          · exfalso; apply h
+            rw [← r1]; simp [Buf.absAnchor, hseek.2]
         have hne : (refill b1 0).1 ≠ .eof := by
           intro he
           obtain ⟨e1, e2⟩ := hr.eof_imp he
@@ -260,7 +270,7 @@ theorem sim_setOffset (P : Nat) (o : Nat) : SimStep P (.setOffset o) := by
           · obtain ⟨a0, _, hb⟩ := absAnchor_some (by rw [r1]; exact hA' : s.b.absAnchor = some A)
             omega
         have hahead : s.b.base + s.b.pos ≤ o := by omega
-        obtain ⟨f1, f2, f3, f4, f5⟩ := ffwdLoop_spec o (s.b.rest.length + 2) s.b r.wf (by omega) hahead (by rw [r.src]; exact hvlt)
+        obtain ⟨f1, f2, f3, f4, f5⟩ := ffwdLoop_spec o (s.b.rest.length + 2) s.b r.wf (by omega) hahead (by rw [r.src]; exact hvle)
         generalize hff : ffwdLoop o (s.b.rest.length + 2) s.b = ff at *
         obtain ⟨stf, bf⟩ := ff
         simp only [] at f1 f2 f3 f4 f5
